@@ -278,9 +278,15 @@ def run(ctx):
     for uid in impls:
         f = program.func(uid)
         opts = []
-        for n in body_walk(f):
-            if isinstance(n, ast.For) and isinstance(n.iter, ast.List):
-                for e in n.iter.elts:
+        for n in program.walk_with_helpers(uid):  # (the option table may live in a helper shared by the implementations)
+            it = n.iter if isinstance(n, ast.For) else None
+            if isinstance(it, ast.Name):
+                try:
+                    it = program.module_const(uid.split("::")[0], it.id)  # a table kept as a module constant
+                except Exception:  # noqa - not a module constant
+                    it = None
+            if isinstance(it, (ast.List, ast.Tuple)):
+                for e in it.elts:
                     if isinstance(e, ast.Tuple) and isinstance(e.elts[0], ast.Constant):
                         opts.append(e.elts[0].value)
         tables[uid] = tuple(opts)
@@ -298,14 +304,8 @@ def run(ctx):
     builtin_name_table(ctx, program, "R12.14")
 
     ctx.rule("R12.5", "both subsystems reject the built-in service names", floor=2)
-    for uid in ("eval.py::EvalFunc.trigger_init", "decorators/service.py::ServiceDecorator.validate"):
-        f = program.func(uid)
-        def names(t):
-            return {x.id for x in ast.walk(t) if isinstance(x, ast.Name)}
-        ok = any(isinstance(n, ast.If) and {"SERVICE_RELOAD", "SERVICE_JUPYTER_KERNEL_START"} <= names(n.test)
-                 and any(isinstance(m, ast.Raise) for m in n.body) for n in body_walk(f))
-        ctx.check(ok, "R12.5", uid, "reload / jupyter_kernel_start rejected", msg=f"{uid} no longer rejects @service names that collide with the built-in services",
-                  key="builtin names rejected", node=f, rel=uid.split("::")[0])
+    # (decided by interpreting both validations on the two built-in names, not by the shape of the test)
+    builtin_name_table(ctx, program, "R12.5", names=(("pyscript.reload", True), ("pyscript.jupyter_kernel_start", True)))
     return (
         "Static, source-only: service_register/service_remove are abstractly interpreted on every element of the finite model count x owner and the "
         "resulting (exit, count', owner', HA calls) is compared with the specified transition table; registration sites are cross-checked (owner key, "
@@ -586,13 +586,13 @@ def response_only_rule(ctx, program, rid):
                   node=program.func(uid), rel="function.py")
 
 
-def builtin_name_table(ctx, program, rid):
+def builtin_name_table(ctx, program, rid, names=None):
     """Both subsystems' @service validation interpreted on names that Home Assistant would file under the integration's own services (it lower-cases service names)."""
     from .c08 import legacy_grouping_table  # noqa: F401  (same harness conventions)
     glob = {"TRIG_SERV_DECORATORS": ListV(tuple(Const(x) for x in ("service", "state_trigger", "event_trigger", "time_trigger", "mqtt_trigger", "webhook_trigger", "state_active",
                                                                    "time_active", "task_unique")), "set"),
             "DOMAIN": Const("pyscript"), "SERVICE_RELOAD": Const("reload"), "SERVICE_JUPYTER_KERNEL_START": Const("jupyter_kernel_start")}
-    for name, conflicts in (("pyscript.reload", True), ("pyscript.Reload", True), ("pyscript.JUPYTER_KERNEL_START", True), ("pyscript.reload2", False), ("other.fine", False)):
+    for name, conflicts in names or (("pyscript.reload", True), ("pyscript.Reload", True), ("pyscript.JUPYTER_KERNEL_START", True), ("pyscript.reload2", False), ("other.fine", False)):
         # legacy
         luid = "eval.py::EvalFunc.trigger_init"
         pol = FlowPolicy(program, events=["Function.service_register"], may_raise_all=False, cancel=False, globals_=glob,
